@@ -49,6 +49,12 @@ def programs(tier):
     for caller in ("h0", "h1"):
         for op in (("unschedule", "w0"), ("unschedule_all",), ("stop",)):
             P.append((f"shared-reent-{op[0]}-by-{caller}", dict(b1, reentrant={(caller, 0): op})))
+    P.append(("shared-stop-twice", dict(b1, threads=[[("stop",)], [("stop",)]])))
+    P.append(("shared-reent-stop-ext-stop", dict(b1, threads=[[("stop",)]], reentrant={("h0", 0): ("stop",)})))
+    P.append(("shared-reent-stop-ext-stop-by-h1", dict(b1, threads=[[("stop",)]], reentrant={("h1", 0): ("stop",)})))
+    slow = dict(init=[S("h0", "w0")], scripts={"w0": ["x", "slow-y"]})
+    P.append(("slow-emitter-unschedule", dict(slow, threads=[[("unschedule", "w0")]])))
+    P.append(("slow-emitter-stop", dict(slow, threads=[[("stop",)]])))
     if tier == "thorough":
         b3 = dict(init=[S("h0", "w0"), S("h1", "w0"), S("h2", "w1")], scripts={"w0": ["x", "y"], "w1": ["x", "y"]})
         P.append(("3h-remove-unschedule", dict(b3, threads=[[("remove", "h0", "w0")], [("unschedule", "w1")]])))
